@@ -193,7 +193,7 @@ def _container(objs):
 # ------------------------------------------------------------------------------------------------ harnesses
 
 @with_fs
-def h_json(cx, fs, sps, container, deltas=None):
+def h_json(cx, fs, sps, container, deltas=None, touched=False):
     ex = geo.M('exchange')
     objs = [_mk(cx, sp, str(i)) for i, sp in enumerate(sps)]
     for i, o in enumerate(objs):
@@ -202,6 +202,14 @@ def h_json(cx, fs, sps, container, deltas=None):
         else:
             o.delta = 0.5 if i % 2 == 0 else 0.25
     src = _container(objs) if container else objs[0]
+    if touched:
+        # a loop over the object was abandoned earlier (e.g. an export that raised half-way)
+        for _g in src:
+            break
+        try:
+            ex.export_smesh(src, fs.path('no_such_dir/x/out.dat')) if src.pdimension == 2 and not cx.symbolic else None
+        except Exception:
+            pass
     cx.check('export_ok', ex.export_json(src, fs.path('shape.json')) is True)
     res = ex.import_json(fs.path('shape.json'))
     cx.check('count', len(res) == len(objs), 'imported %d shapes, exported %d' % (len(res), len(objs)))
@@ -404,6 +412,9 @@ def instances(tier):
         out.append(inst('json container2 %s' % kind, h_json, timeout=1200, sps=lst[:2], container=True))
         if (kind != 'volume' and (not quick or kind == 'curve')) or (kind == 'volume' and not quick):
             out.append(inst('json container3 %s' % kind, h_json, timeout=1800, sps=lst[:3], container=True))
+    out.append(inst('json single surface after abandoned loop', h_json, timeout=900, sps=srf[:1], container=False, touched=True))
+    out.append(inst('json container3 curve after abandoned loop', h_json, timeout=1800, sps=crv[:3], container=True, touched=True))
+    out.append(inst('json container2 surface after abandoned loop', h_json, timeout=1800, sps=srf[:2], container=True, touched=True))
     for kind in ('spline', 'spline_nonrat', 'two_splines', 'freeform', 'container'):
         out.append(inst('json trims %s' % kind, h_json_trims, timeout=900, kind=kind))
     for sp in srf:
